@@ -248,8 +248,14 @@ pub fn supported_leaf(g: &Grammar, name: &str) -> bool {
 
 /// (rule index, getter name) pairs of a grammar.
 pub fn getter_list(g: &Grammar) -> Vec<(usize, String)> {
+    getter_list_for(g, true)
+}
+
+/// `optimised`: shapes follow the optimised AST (default) or the raw AST (`pest_optimizer = false`)
+pub fn getter_list_for(g: &Grammar, optimised: bool) -> Vec<(usize, String)> {
     let mut v = vec![];
-    for (i, r) in g.opt.iter().enumerate() {
+    let rules = if optimised { &g.opt } else { &g.raw };
+    for (i, r) in rules.iter().enumerate() {
         if r.kind == Kind::Atomic {
             continue; // span only: no getters
         }
@@ -266,12 +272,16 @@ pub fn getter_list(g: &Grammar) -> Vec<(usize, String)> {
 
 /// Harness code for one getter-family grammar.
 pub fn probes(g: &Grammar) -> String {
+    probes_for(g, true)
+}
+
+pub fn probes_for(g: &Grammar, optimised: bool) -> String {
     let mut s = String::new();
     // Leaf impls for the rule structs (written outside the impl block by the emitter: the
     // marker line separates them)
     s.push_str("    fn probe(&self, name: &str, rule: usize, host: &str) -> Option<String> {\n        use typed_side::rules;\n        use pest_typed::ParsableTypedNode;\n");
     s.push_str("        let r = std::panic::catch_unwind(std::panic::AssertUnwindSafe(|| -> Option<String> {\n            match (name, rule) {\n");
-    for (i, x) in getter_list(g) {
+    for (i, x) in getter_list_for(g, optimised) {
         let r = &g.opt[i].name;
         s.push_str(&format!(
             "                ({:?}, {}) => {{ let (_, t) = rules::r#{}::try_parse_partial(host).ok()?; Some(vs::flat(&t.r#{}())) }}\n",
@@ -303,10 +313,17 @@ pub fn leaf_impls(g: &Grammar) -> String {
 }
 
 pub fn make_spec(id: &str, text: &str) -> Option<Spec> {
+    make_spec_for(id, text, true)
+}
+
+pub fn make_spec_for(id: &str, text: &str, optimised: bool) -> Option<Spec> {
     let g = Grammar::parse(text).ok()?;
     let mut s = Spec::new(id, "getter", text);
     s.options = vec!["emit_rule_reference".into()];
-    s.probes = vec![probes(&g), format!("//AFTER_IMPL\n{}", leaf_impls(&g))];
+    if !optimised {
+        s.options.push("pest_optimizer = false".into());
+    }
+    s.probes = vec![probes_for(&g, optimised), format!("//AFTER_IMPL\n{}", leaf_impls(&g))];
     Some(s)
 }
 
